@@ -13,3 +13,6 @@ class Sub:
         if self.extra_eval:
             fails += self.extra_eval(case, out)
         return fails
+
+    def input_classes(self, case):
+        return self.mod.input_classes(case) if hasattr(self.mod, "input_classes") else []
